@@ -698,3 +698,222 @@ Proof.
   - inversion H; subst; auto.
   - destruct (step s l) as [[s1 o]|] eqn:E; [|discriminate]. eapply IH; [eapply step_good; [exact HG|exact E]|exact H].
 Qed.
+
+(* ---------------------------------------------------------------- progress: pending work of an address can always be
+   consumed, using only moves of that address, first steps of handler tasks, and other generators suspending *)
+Definition consumed (a : addr) (s : state) : nat := length (hist (cl s a)).
+Definition pendingP (a : addr) (s : state) : Prop := consumed a s < length (arrived (cl s a)).
+
+Definition phi0 (c : client) : nat :=
+  match pc c with
+  | PGen0 _ => 2 | PGen => 3 | PWait _ => 1
+  | PIdle => match st c with TPending => 2 | _ => 1 end
+  end.
+Definition phi (a : addr) (s : state) : nat :=
+  match cur s with
+  | None => phi0 (cl s a)
+  | Some b => if Nat.eqb b a then match pc (cl s a) with PGen0 _ => 1 | _ => 2 end else S (phi0 (cl s a))
+  end.
+Definition mu (a : addr) (s : state) : nat := 6 * length (spawned s) + phi a s.
+
+Lemma phi_le a s : phi a s <= 4.
+Proof.
+  unfold phi, phi0. destruct (cur s) as [b|]; [destruct (Nat.eqb b a)|];
+    destruct (pc (cl s a)); try destruct (st (cl s a)); lia.
+Qed.
+
+Lemma pending_iff a s : Inv s ->
+  (pendingP a s <-> held (cl s a) ++ queue (cl s a) ++ proj a (spawned s) <> []).
+Proof.
+  intros [_ Hall]. destruct (Hall a) as [_ Hf]. unfold fifo_at, flat in Hf. unfold pendingP, consumed.
+  rewrite <- Hf, <- !app_assoc, app_length, map_length.
+  destruct (held (cl s a) ++ queue (cl s a) ++ proj a (spawned s)) eqn:E; simpl; split; intros; try lia; congruence.
+Qed.
+
+Lemma do_gsuspend s b :
+  err s = false -> cur s = Some b -> gen_ctl (cl s b) = true ->
+  step s (GSuspend b) =
+    Some ({| cl := upd (cl s) b (set_gsusp (cl s b) true); spawned := spawned s; cur := None; err := false |}, []).
+Proof.
+  intros He Hc Hg. unfold step, on_cpu. rewrite He, Hc, Nat.eqb_refl. unfold l_gsuspend, gen_ctl in *.
+  destruct (pc (cl s b)); try discriminate; reflexivity.
+Qed.
+
+Lemma do_gresume s a :
+  err s = false -> cur s = None -> gen_ctl (cl s a) = true -> gsusp (cl s a) = true ->
+  step s (GResume a) =
+    Some ({| cl := upd (cl s) a (set_gsusp (cl s a) false); spawned := spawned s; cur := Some a; err := false |}, []).
+Proof.
+  intros He Hc Hg Hs. unfold step, cpu_free. rewrite He, Hc. unfold l_gresume, gen_ctl in *. rewrite Hs.
+  destruct (pc (cl s a)); try discriminate; reflexivity.
+Qed.
+
+Lemma do_gyield0 s a d :
+  err s = false -> cur s = Some a -> pc (cl s a) = PGen0 d ->
+  step s (GYield a None) =
+    Some ({| cl := upd (cl s) a (set_hist (set_pc (cl s a) PGen) (hist (cl s a) ++ [(d, true)]));
+             spawned := spawned s; cur := Some a; err := false |}, [ORecv a d]).
+Proof.
+  intros He Hc Hp. unfold step, on_cpu. rewrite He, Hc, Nat.eqb_refl. unfold l_gyield. rewrite Hp. reflexivity.
+Qed.
+
+Lemma do_gyield1 s a :
+  err s = false -> cur s = Some a -> pc (cl s a) = PGen ->
+  step s (GYield a None) =
+    Some ({| cl := upd (cl s) a (set_pc (cl s a) (PWait None)); spawned := spawned s; cur := None; err := false |}, []).
+Proof.
+  intros He Hc Hp. unfold step, on_cpu. rewrite He, Hc, Nat.eqb_refl. unfold l_gyield. rewrite Hp. reflexivity.
+Qed.
+
+Lemma do_popwake s a t d q :
+  err s = false -> cur s = None -> pc (cl s a) = PWait t -> queue (cl s a) = d :: q ->
+  step s (PopWake a) =
+    Some ({| cl := upd (cl s) a (set_hist (set_pc (set_queue (cl s a) q) PGen) (hist (cl s a) ++ [(d, true)]));
+             spawned := spawned s; cur := Some a; err := false |}, [ORecv a d]).
+Proof.
+  intros He Hc Hp Hq. unfold step, cpu_free. rewrite He, Hc. unfold l_popwake. rewrite Hp, Hq. reflexivity.
+Qed.
+
+Lemma do_taskstart s a :
+  err s = false -> cur s = None -> cinv (cl s a) -> st (cl s a) = TPending ->
+  exists c' o, step s (TaskStart a) =
+    Some ({| cl := upd (cl s) a c'; spawned := spawned s; cur := Some a; err := false |}, o)
+    /\ hist c' = hist (cl s a) /\ (exists d, pc c' = PGen0 d).
+Proof.
+  intros He Hc Hi Hs. unfold step, cpu_free. rewrite He, Hc. unfold l_taskstart. rewrite Hs.
+  unfold cinv in Hi. rewrite Hs in Hi. destruct Hi as (Hq & Hpc & Hn).
+  destruct (client_coroutine a (cl s a)) as [| |c' o cpu] eqn:E.
+  - unfold client_coroutine in E. rewrite Hs in E. simpl in E. destruct (queue (cl s a)); [congruence|discriminate].
+  - exfalso. eapply client_coroutine_nocrash; eauto.
+  - pose proof E as E0. apply client_coroutine_ok in E; auto. destruct E as (_ & _ & _ & -> & _ & Hd & _).
+    exists c', o. split; [reflexivity|]. split; [|exact Hd].
+    unfold client_coroutine in E0. rewrite Hs in E0. simpl in E0. destruct (queue (cl s a)); [discriminate|].
+    inversion E0; subst. reflexivity.
+Qed.
+
+Lemma l_hstart_hist a d susp c c' o cpu : l_hstart a d susp c = Ok c' o cpu -> hist c' = hist c.
+Proof.
+  intros H. assert (HK : forall c1, hist c1 = hist c -> handler_check a c1 = Ok c' o cpu -> hist c' = hist c).
+  { intros c1 E Hh. unfold handler_check in Hh.
+    destruct (st c1) eqn:Es; [destruct (queue c1) eqn:Eq|destruct (queue c1)|destruct (queue c1)]; crush; auto.
+    unfold client_coroutine in Hh. simpl in Hh. rewrite Eq in Hh. simpl in Hh. crush. simpl. exact E. }
+  unfold l_hstart in H. destruct (st c); [|destruct susp|destruct susp]; try (eapply HK; [|exact H]; reflexivity);
+    crush; reflexivity.
+Qed.
+
+Lemma l_hstart_enabled a d susp c : l_hstart a d susp c <> NotEnabled.
+Proof.
+  cbreak c. unfold l_hstart, handler_check, client_coroutine. simpl.
+  destruct st_, susp; simpl; try discriminate; destruct q_; simpl; try discriminate;
+    try (destruct (q_ ++ [d]); discriminate).
+Qed.
+
+Lemma do_hstart s a d sp :
+  Inv s -> cur s = None -> spawned s = (a, d) :: sp ->
+  exists c' o (cpu : bool), step s (HStart false) =
+    Some ({| cl := upd (cl s) a c'; spawned := sp; cur := if cpu then Some a else None; err := false |}, o)
+    /\ hist c' = hist (cl s a).
+Proof.
+  intros [He Hall] Hc Hsp. unfold step, cpu_free. rewrite He, Hc, Hsp.
+  destruct (Hall a) as [Hi _]. destruct (l_hstart_ok a d false _ Hi) as [Hnc _].
+  destruct (l_hstart a d false (cl s a)) as [| |c' o cpu] eqn:E.
+  - exfalso. eapply l_hstart_enabled; eauto.
+  - congruence.
+  - exists c', ([OHStart a d] ++ o), cpu. split; [reflexivity|]. eapply l_hstart_hist; eauto.
+Qed.
+
+Lemma gen_ctl_cases c : gen_ctl c = true -> (exists d, pc c = PGen0 d) \/ pc c = PGen.
+Proof. unfold gen_ctl. destruct (pc c); try discriminate; eauto. Qed.
+
+Lemma progress_step a s :
+  Good s -> pendingP a s ->
+  exists l s' o, step s l = Some (s', o) /\ polite a l /\
+    (consumed a s' = S (consumed a s) \/ (consumed a s' = consumed a s /\ mu a s' < mu a s)).
+Proof.
+  intros [HI HC] HP. pose proof HI as [He Hall]. pose proof HC as [C1 C2].
+  destruct (Hall a) as [Hia _].
+  destruct (cur s) as [b|] eqn:Ecur.
+  - (* some generator has the CPU *)
+    destruct (C1 _ eq_refl) as [Gb Sb].
+    destruct (Nat.eq_dec b a) as [->|Hne].
+    + destruct (gen_ctl_cases _ Gb) as [[d Hp]|Hp].
+      * eexists _, _, _. split; [apply (do_gyield0 s a d He Ecur Hp)|]. split; [reflexivity|]. left.
+        unfold consumed. simpl. rewrite upd_eq. simpl. rewrite app_length. simpl. lia.
+      * eexists _, _, _. split; [apply (do_gyield1 s a He Ecur Hp)|]. split; [reflexivity|]. right.
+        unfold consumed, mu, phi. simpl. rewrite upd_eq. simpl. rewrite Ecur, Nat.eqb_refl, Hp. unfold phi0. simpl.
+        split; [reflexivity|lia].
+    + eexists _, _, _. split; [apply (do_gsuspend s b He Ecur Gb)|]. split; [exact I|]. right.
+      unfold consumed, mu, phi. simpl. rewrite upd_neq by auto. rewrite Ecur.
+      destruct (Nat.eqb_spec b a); [congruence|]. unfold phi0. split; [reflexivity|lia].
+  - (* scheduling point *)
+    assert (Hg : gsusp (cl s a) = gen_ctl (cl s a)) by (apply C2; congruence).
+    destruct (pc (cl s a)) as [|d| |t] eqn:Epc.
+    + (* no coroutine *)
+      unfold cinv in Hia. destruct (st (cl s a)) eqn:Est.
+      * (* state None: the queue is empty, so a handler task of a has not run yet *)
+        destruct Hia as (Hq & _ & _).
+        apply (pending_iff a s HI) in HP. unfold held in HP. rewrite Epc, Hq in HP. simpl in HP.
+        destruct (spawned s) as [|[b d] sp] eqn:Esp; [exfalso; apply HP; reflexivity|].
+        destruct (do_hstart s b d sp HI Ecur Esp) as (c' & o & cpu & Hstep & Hh).
+        eexists _, _, _. split; [exact Hstep|]. split; [exact I|]. right.
+        unfold consumed, mu. rewrite Esp. simpl. split.
+        -- destruct (Nat.eq_dec a b) as [->|Hab]; [rewrite upd_eq; congruence|rewrite upd_neq by auto; reflexivity].
+        -- match goal with |- _ + phi a ?s1 < _ => pose proof (phi_le a s1) end. lia.
+      * (* PENDING: the task started by the hook *)
+        destruct (do_taskstart s a He Ecur (proj1 (Hall a)) Est) as (c' & o & Hstep & Hh & d & Hp).
+        eexists _, _, _. split; [exact Hstep|]. split; [reflexivity|]. right.
+        unfold consumed, mu, phi. simpl. rewrite upd_eq, Nat.eqb_refl, Hp, Ecur. unfold phi0. rewrite Epc, Est, Hh.
+        split; [reflexivity|lia].
+      * destruct Hia as [Hia _]. congruence.
+    + (* generator suspended before its first yield *)
+      assert (Gs : gen_ctl (cl s a) = true) by (unfold gen_ctl; rewrite Epc; reflexivity).
+      eexists _, _, _. split; [apply (do_gresume s a He Ecur Gs); congruence|]. split; [reflexivity|]. right.
+      unfold consumed, mu, phi. simpl. rewrite upd_eq, Nat.eqb_refl, Ecur. simpl. rewrite Epc. unfold phi0. rewrite Epc.
+      split; [reflexivity|lia].
+    + assert (Gs : gen_ctl (cl s a) = true) by (unfold gen_ctl; rewrite Epc; reflexivity).
+      eexists _, _, _. split; [apply (do_gresume s a He Ecur Gs); congruence|]. split; [reflexivity|]. right.
+      unfold consumed, mu, phi. simpl. rewrite upd_eq, Nat.eqb_refl, Ecur. simpl. rewrite Epc. unfold phi0. rewrite Epc.
+      split; [reflexivity|lia].
+    + (* waiting in pop_datagram *)
+      destruct (queue (cl s a)) as [|d q] eqn:Eq.
+      * apply (pending_iff a s HI) in HP. unfold held in HP. rewrite Epc, Eq in HP. simpl in HP.
+        destruct (spawned s) as [|[b d] sp] eqn:Esp; [exfalso; apply HP; reflexivity|].
+        destruct (do_hstart s b d sp HI Ecur Esp) as (c' & o & cpu & Hstep & Hh).
+        eexists _, _, _. split; [exact Hstep|]. split; [exact I|]. right.
+        unfold consumed, mu. rewrite Esp. simpl. split.
+        -- destruct (Nat.eq_dec a b) as [->|Hab]; [rewrite upd_eq; congruence|rewrite upd_neq by auto; reflexivity].
+        -- match goal with |- _ + phi a ?s1 < _ => pose proof (phi_le a s1) end. lia.
+      * eexists _, _, _. split; [apply (do_popwake s a t d q He Ecur Epc Eq)|]. split; [reflexivity|]. left.
+        unfold consumed. simpl. rewrite upd_eq. simpl. rewrite app_length. simpl. lia.
+Qed.
+
+Lemma polite_no_arrival a l b : polite a l -> arrivals b [l] = [].
+Proof. destruct l; simpl; try tauto; reflexivity. Qed.
+
+Lemma progress_pf a : forall n s,
+  mu a s <= n -> Good s -> pendingP a s ->
+  exists ls s', steps s ls = Some s' /\ Forall (polite a) ls /\ consumed a s' = S (consumed a s).
+Proof.
+  induction n as [|n IH]; intros s Hn HG HP.
+  - destruct (progress_step a s HG HP) as (l & s' & o & Hs & Hpl & [Hc|[Hc Hm]]).
+    + exists [l], s'. simpl. rewrite Hs. auto.
+    + lia.
+  - destruct (progress_step a s HG HP) as (l & s' & o & Hs & Hpl & [Hc|[Hc Hm]]).
+    + exists [l], s'. simpl. rewrite Hs. auto.
+    + pose proof (step_good _ _ _ _ HG Hs) as HG'.
+      assert (HP' : pendingP a s').
+      { unfold pendingP. rewrite Hc. destruct HG as [HI _].
+        destruct (step_ghost _ _ _ _ HI Hs a) as [_ Ha]. rewrite Ha, (polite_no_arrival a l a Hpl), app_nil_r. exact HP. }
+      destruct (IH s' ltac:(lia) HG' HP') as (ls & s2 & Hss & Hf & Hc2).
+      exists (l :: ls), s2. simpl. rewrite Hs. split; [exact Hss|]. split; [constructor; assumption|]. lia.
+Qed.
+
+Lemma not_starved_pf :
+  forall ls s a, steps state0 ls = Some s ->
+    held (cl s a) ++ queue (cl s a) ++ proj a (spawned s) <> [] ->
+    exists ls' s', steps s ls' = Some s' /\ Forall (polite a) ls' /\
+                   length (hist (cl s' a)) = S (length (hist (cl s a))).
+Proof.
+  intros ls s a H Hp. pose proof (steps_good _ _ _ Good0 H) as HG.
+  apply (progress_pf a (mu a s) s (le_n _) HG). apply pending_iff; [exact (proj1 HG)|exact Hp].
+Qed.
